@@ -56,11 +56,14 @@ Lemma trace_eq I J : (forall ops, run I ops = run J ops) -> forall ops, trace I 
 Proof. intros H ops. unfold trace. now rewrite H. Qed.
 
 (* ---------------------------------------------------------------- vocabulary at the end of a history *)
-Definition is_dropstate (e : ev) : bool := match e with (DropState, ODone) => true | _ => false end.
-Definition dropped (tr : list ev) : bool := existsb is_dropstate tr.
 Definition is_sub (s : nat) (e : ev) : bool :=
-  match e with (Subscribe, OSub k) => Nat.eqb k s | _ => false end.
+  match e with (Subscribe _, OSub k) => Nat.eqb k s | _ => false end.
 Definition subscribed (s : nat) (tr : list ev) : bool := existsb (is_sub s) tr.
+Definition created (h : nat) (tr : list ev) : bool := Nat.eqb h 0 || existsb (is_clone h) tr.
+Definition hdropped (h : nat) (tr : list ev) : bool := existsb (is_droph h) tr.
+
+Lemma handle_live_eq h tr : handle_live h tr = created h tr && negb (hdropped h tr).
+Proof. reflexivity. Qed.
 
 Lemma received_app s a b : received s (a ++ b) = received s a ++ received s b.
 Proof.
@@ -89,13 +92,20 @@ Proof.
   destruct (Nat.eqb k s); cbn [orb]; auto. discriminate.
 Qed.
 
-(* events that touch none of received / sets / subscribed / dropped *)
+(* events that touch none of received / sets / subscribed *)
 Definition neutral (e : ev) : Prop :=
   match e with
   | (Poll _, OItem _ _) => False
-  | (Set_ _, OSet _) => False
-  | (Subscribe, OSub _) => False
-  | (DropState, ODone) => False
+  | (Set_ _ _, OSet _) => False
+  | (Subscribe _, OSub _) => False
+  | _ => True
+  end.
+(* events that touch none of the handles (creation, drop, value) *)
+Definition hneutral (e : ev) : Prop :=
+  match e with
+  | (Set_ _ _, OSet _) => False
+  | (CloneH _, OHandle _) => False
+  | (DropH _, ODone) => False
   | _ => True
   end.
 
@@ -105,7 +115,11 @@ Lemma neutral_sets e : neutral e -> sets [e] = [].
 Proof. destruct e as [[] []]; cbn; intros; try tauto; reflexivity. Qed.
 Lemma neutral_sub e s : neutral e -> is_sub s e = false.
 Proof. destruct e as [[] []]; cbn; intros; try tauto; reflexivity. Qed.
-Lemma neutral_drop e : neutral e -> is_dropstate e = false.
+Lemma hneutral_clone e h : hneutral e -> is_clone h e = false.
+Proof. destruct e as [[] []]; cbn; intros; try tauto; reflexivity. Qed.
+Lemma hneutral_droph e h : hneutral e -> is_droph h e = false.
+Proof. destruct e as [[] []]; cbn; intros; try tauto; reflexivity. Qed.
+Lemma hneutral_hstep e vals : hneutral e -> hstep vals e = vals.
 Proof. destruct e as [[] []]; cbn; intros; try tauto; reflexivity. Qed.
 
 Lemma neutral_sets_after e s tr : neutral e -> sets_after s (tr ++ [e]) = sets_after s tr.
@@ -117,8 +131,12 @@ Qed.
 
 Lemma subscribed_snoc s tr e : subscribed s (tr ++ [e]) = subscribed s tr || is_sub s e.
 Proof. unfold subscribed. rewrite existsb_app. cbn. now rewrite orb_false_r. Qed.
-Lemma dropped_snoc tr e : dropped (tr ++ [e]) = dropped tr || is_dropstate e.
-Proof. unfold dropped. rewrite existsb_app. cbn. now rewrite orb_false_r. Qed.
+Lemma created_snoc h tr e : created h (tr ++ [e]) = created h tr || is_clone h e.
+Proof. unfold created. rewrite existsb_app. cbn. now rewrite orb_false_r, orb_assoc. Qed.
+Lemma hdropped_snoc h tr e : hdropped h (tr ++ [e]) = hdropped h tr || is_droph h e.
+Proof. unfold hdropped. rewrite existsb_app. cbn. now rewrite orb_false_r. Qed.
+Lemma hvals_snoc tr e : hvals (tr ++ [e]) = hstep (hvals tr) e.
+Proof. unfold hvals. now rewrite fold_left_app. Qed.
 
 (* ---------------------------------------------------------------- sublist, last_opt *)
 Lemma sublist_nil_l A (l : list A) : sublist [] l.
@@ -143,15 +161,15 @@ Qed.
 Lemma last_opt_snoc A (l : list A) x : last_opt (l ++ [x]) = Some x.
 Proof. unfold last_opt. now rewrite rev_app_distr. Qed.
 
-(* ---------------------------------------------------------------- the invariant *)
+(* ---------------------------------------------------------------- the invariant: subscribers *)
 (* per live subscriber at count k, against the channel (n, last) *)
 Definition sub_ok (n : Z) (last : N) (k : Z) (rec sa : list N) : Prop :=
   k <= n /\
   (k = n -> sublist rec sa /\ last_opt rec = last_opt sa) /\
   (k < n -> exists sa0, sa = sa0 ++ [last] /\ sublist rec sa0).
 
-Definition InvC (tr : list ev) (al : bool) (c : achan) (l : list (option Z)) : Prop :=
-  a_open c = al /\ al = negb (dropped tr) /\ a_rx c = nlive l /\
+Definition InvC (tr : list ev) (c : achan) (l : list (option Z)) : Prop :=
+  a_rx c = nlive l /\
   (forall s, subscribed s tr = true <-> (s < length l)%nat) /\
   (forall s, (length l <= s)%nat -> received s tr = []) /\
   (forall s, nth_error l s = Some None ->
@@ -159,8 +177,16 @@ Definition InvC (tr : list ev) (al : bool) (c : achan) (l : list (option Z)) : P
   (forall s k, nth_error l s = Some (Some k) ->
                sub_ok (a_n c) (a_last c) k (received s tr) (sets_after s tr)).
 
+(* the invariant: handles.  hs = each handle's own value, None once dropped *)
+Definition InvH (tr : list ev) (hs : list (option N)) : Prop :=
+  (forall h, created h tr = true <-> (h < length hs)%nat) /\
+  (forall h, hdropped h tr = true <-> nth_error hs h = Some None) /\
+  length (hvals tr) = length hs /\
+  (forall h g, nth_error hs h = Some (Some g) -> nth_error (hvals tr) h = Some g).
+
 Definition Inv (tr : list ev) (st : state abs_impl) : Prop :=
-  InvC tr (alive st) (ch st) (subs st) /\ (notifier st = true -> onc st = AIdle).
+  InvC tr (ch st) (subs st) /\ InvH tr (handles st) /\ a_tx (ch st) = nlive (handles st) /\
+  (notifier st = true -> onc st = AIdle).
 
 Lemma sub_ok_sublist n last k rec sa : sub_ok n last k rec sa -> sublist rec sa.
 Proof.
@@ -168,11 +194,16 @@ Proof.
   destruct H2 as (sa0 & -> & S); [lia|]. now apply sublist_app_r.
 Qed.
 
-Lemma InvC_neutral tr al c l e : neutral e -> InvC tr al c l -> InvC (tr ++ [e]) al c l.
+(* only the count of live subscribers, the number of published values and the latest value of
+   the channel matter *)
+Lemma InvC_chan tr c c' l : a_rx c' = a_rx c -> a_n c' = a_n c -> a_last c' = a_last c ->
+  InvC tr c l -> InvC tr c' l.
+Proof. unfold InvC. intros -> -> ->. auto. Qed.
+
+Lemma InvC_neutral tr c l e : neutral e -> InvC tr c l -> InvC (tr ++ [e]) c l.
 Proof.
-  intros N (Ho & Ha & Hrx & Hsub & Hrec & Hdead & Hlive).
-  unfold InvC. rewrite dropped_snoc, neutral_drop, orb_false_r by auto.
-  split; [auto|]. split; [auto|]. split; [auto|]. split; [|split; [|split]].
+  intros N (Hrx & Hsub & Hrec & Hdead & Hlive).
+  unfold InvC. split; [auto|]. split; [|split; [|split]].
   - intros s. rewrite subscribed_snoc, neutral_sub, orb_false_r by auto. apply Hsub.
   - intros s L. rewrite received_app, neutral_received, app_nil_r by auto. auto.
   - intros s H. rewrite received_app, neutral_received, app_nil_r, neutral_sets_after by auto.
@@ -181,26 +212,25 @@ Proof.
     now apply Hlive.
 Qed.
 
-Lemma subscribed_of_nth tr al c l s x : InvC tr al c l -> nth_error l s = Some x -> subscribed s tr = true.
+Lemma subscribed_of_nth tr c l s x : InvC tr c l -> nth_error l s = Some x -> subscribed s tr = true.
 Proof.
-  intros (_ & _ & _ & Hsub & _) H. apply Hsub. apply nth_error_Some. congruence.
+  intros (_ & Hsub & _) H. apply Hsub. apply nth_error_Some. congruence.
 Qed.
 
-(* set(v) while the State exists *)
-Lemma InvC_set tr c l v : InvC tr true c l ->
-  InvC (tr ++ [(Set_ v, OSet v)]) true (fst (a_set c v)) l.
+(* set(v) through a live handle *)
+Lemma InvC_set tr c l h v : InvC tr c l ->
+  InvC (tr ++ [(Set_ h v, OSet v)]) (fst (a_set c v)) l.
 Proof.
-  intros Hinv. pose proof Hinv as (Ho & Ha & Hrx & Hsub & Hrec & Hdead & Hlive).
+  intros Hinv. pose proof Hinv as (Hrx & Hsub & Hrec & Hdead & Hlive).
   assert (SA : forall s x, nth_error l s = Some x ->
-               sets_after s (tr ++ [(Set_ v, OSet v)]) = sets_after s tr ++ [v]).
-  { intros s x H. rewrite sets_after_app, (subscribed_of_nth _ _ _ _ _ _ Hinv H). reflexivity. }
-  assert (RC : forall s, received s (tr ++ [(Set_ v, OSet v)]) = received s tr).
+               sets_after s (tr ++ [(Set_ h v, OSet v)]) = sets_after s tr ++ [v]).
+  { intros s x H. rewrite sets_after_app, (subscribed_of_nth _ _ _ _ _ Hinv H). reflexivity. }
+  assert (RC : forall s, received s (tr ++ [(Set_ h v, OSet v)]) = received s tr).
   { intros s. rewrite received_app. cbn. apply app_nil_r. }
-  unfold InvC. rewrite dropped_snoc. cbn [is_dropstate]. rewrite orb_false_r.
-  assert (Hc : a_open (fst (a_set c v)) = true /\ a_rx (fst (a_set c v)) = nlive l).
+  unfold InvC.
+  assert (Hc2 : a_rx (fst (a_set c v)) = nlive l).
   { unfold a_set. cbn [fst]. destruct (Nat.eqb (a_rx c) 0); cbn; auto. }
-  destruct Hc as [Hc1 Hc2].
-  split; [auto|]. split; [auto|]. split; [auto|]. split; [|split; [|split]].
+  split; [auto|]. split; [|split; [|split]].
   - intros s. rewrite subscribed_snoc. cbn [is_sub]. rewrite orb_false_r. apply Hsub.
   - intros s L. rewrite RC. auto.
   - intros s H. rewrite RC, (SA _ _ H). split; [apply sublist_app_r; now apply Hdead|].
@@ -223,23 +253,23 @@ Proof.
     injection H as <-. right. split; auto. lia.
 Qed.
 
-(* stream() while the State exists *)
-Lemma InvC_sub tr c l : InvC tr true c l ->
-  InvC (tr ++ [(Subscribe, OSub (length l))]) true (fst (a_sub c)) (l ++ [Some (snd (a_sub c))]).
+(* stream() through a live handle *)
+Lemma InvC_sub tr c l h : InvC tr c l ->
+  InvC (tr ++ [(Subscribe h, OSub (length l))]) (fst (a_sub c)) (l ++ [Some (snd (a_sub c))]).
 Proof.
-  intros Hinv. pose proof Hinv as (Ho & Ha & Hrx & Hsub & Hrec & Hdead & Hlive).
-  set (e := (Subscribe, OSub (length l))).
+  intros Hinv. pose proof Hinv as (Hrx & Hsub & Hrec & Hdead & Hlive).
+  set (e := (Subscribe h, OSub (length l))).
   assert (RC : forall s, received s (tr ++ [e]) = received s tr).
   { intros s. rewrite received_app. cbn. apply app_nil_r. }
   assert (SA : forall s x, nth_error l s = Some x -> sets_after s (tr ++ [e]) = sets_after s tr).
-  { intros s x H. rewrite sets_after_app, (subscribed_of_nth _ _ _ _ _ _ Hinv H). cbn. apply app_nil_r. }
+  { intros s x H. rewrite sets_after_app, (subscribed_of_nth _ _ _ _ _ Hinv H). cbn. apply app_nil_r. }
   assert (Hnew : subscribed (length l) tr = false).
   { destruct (subscribed (length l) tr) eqn:E; auto. apply Hsub in E. lia. }
   assert (SN : sets_after (length l) (tr ++ [e]) = []).
   { rewrite sets_after_app, Hnew. cbn. now rewrite Nat.eqb_refl. }
-  unfold InvC. rewrite dropped_snoc. cbn [is_dropstate e]. rewrite orb_false_r.
-  unfold a_sub; cbn [fst snd a_open a_rx a_n a_last]. rewrite nlive_app, app_length. cbn [length].
-  split; [auto|]. split; [auto|]. split; [lia|]. split; [|split; [|split]].
+  unfold InvC.
+  unfold a_sub; cbn [fst snd a_rx a_n a_last]. rewrite nlive_app, app_length. cbn [length].
+  split; [lia|]. split; [|split; [|split]].
   - intros s. rewrite subscribed_snoc. cbn [is_sub e]. split.
     + intros H. apply orb_true_iff in H as [H|H].
       * apply Hsub in H. lia.
@@ -256,34 +286,11 @@ Proof.
       unfold sub_ok. split; [lia|]. split; [|lia]. intros _. split; [constructor|reflexivity].
 Qed.
 
-(* an event that hands nothing out, sets nothing and subscribes nobody; the channel may change in
-   its open flag only (covers drop(State)) *)
-Lemma InvC_quiet tr al c l e al' c' :
-  (forall s, received s [e] = []) -> sets [e] = [] -> (forall s, is_sub s e = false) ->
-  InvC tr al c l ->
-  a_open c' = al' -> al' = negb (dropped (tr ++ [e])) ->
-  a_rx c' = a_rx c -> a_n c' = a_n c -> a_last c' = a_last c ->
-  InvC (tr ++ [e]) al' c' l.
-Proof.
-  intros Q1 Q2 Q3 (Ho & Ha & Hrx & Hsub & Hrec & Hdead & Hlive) E1 E2 E3 E4 E5.
-  assert (SA : forall s, sets_after s (tr ++ [e]) = sets_after s tr).
-  { intros s. rewrite sets_after_app. destruct (subscribed s tr) eqn:E.
-    - now rewrite Q2, app_nil_r.
-    - rewrite (sets_after_unsub s tr) by auto. apply sets_after_unsub. cbn. now rewrite Q3. }
-  unfold InvC. rewrite E3, E4, E5.
-  split; [auto|]. split; [auto|]. split; [auto|]. split; [|split; [|split]].
-  - intros s. rewrite subscribed_snoc, Q3, orb_false_r. apply Hsub.
-  - intros s L. rewrite received_app, Q1, app_nil_r. auto.
-  - intros s H. rewrite received_app, Q1, app_nil_r, SA.
-    split; [now apply Hdead|]. apply in_or_app. left. now apply Hdead.
-  - intros s k H. rewrite received_app, Q1, app_nil_r, SA. now apply Hlive.
-Qed.
-
 (* poll_next hands the latest value to a subscriber that is behind *)
-Lemma InvC_item tr al c l s k : InvC tr al c l -> nth_error l s = Some (Some k) -> k < a_n c ->
-  InvC (tr ++ [(Poll s, OItem (a_last c) CTrue)]) al c (upd l s (Some (a_n c))).
+Lemma InvC_item tr c l s k : InvC tr c l -> nth_error l s = Some (Some k) -> k < a_n c ->
+  InvC (tr ++ [(Poll s, OItem (a_last c) CTrue)]) c (upd l s (Some (a_n c))).
 Proof.
-  intros Hinv El Lk. pose proof Hinv as (Ho & Ha & Hrx & Hsub & Hrec & Hdead & Hlive).
+  intros Hinv El Lk. pose proof Hinv as (Hrx & Hsub & Hrec & Hdead & Hlive).
   set (e := (Poll s, OItem (a_last c) CTrue)).
   assert (RC : forall t, t <> s -> received t (tr ++ [e]) = received t tr).
   { intros t N. rewrite received_app. cbn. apply Nat.eqb_neq in N. rewrite Nat.eqb_sym, N.
@@ -295,8 +302,8 @@ Proof.
     - cbn. apply app_nil_r.
     - rewrite (sets_after_unsub t tr) by auto. reflexivity. }
   assert (Ls : (s < length l)%nat) by (apply nth_error_Some; congruence).
-  unfold InvC. rewrite dropped_snoc. cbn [is_dropstate e]. rewrite orb_false_r, length_upd.
-  split; [auto|]. split; [auto|]. split; [|split; [|split; [|split]]].
+  unfold InvC. rewrite length_upd.
+  split; [|split; [|split; [|split]]].
   - rewrite Hrx. symmetry. eapply nlive_upd_some; eauto.
   - intros t. rewrite subscribed_snoc. cbn [is_sub e]. rewrite orb_false_r. apply Hsub.
   - intros t L. rewrite RC by lia. auto.
@@ -315,13 +322,13 @@ Proof.
 Qed.
 
 (* drop(Stream) *)
-Lemma InvC_kill tr al c l s k : InvC tr al c l -> nth_error l s = Some (Some k) ->
+Lemma InvC_kill tr c l s k : InvC tr c l -> nth_error l s = Some (Some k) ->
   In (DropSub s, ODone) tr ->
-  InvC tr al (fst (a_droprx c k)) (upd l s None).
+  InvC tr (fst (a_droprx c k)) (upd l s None).
 Proof.
-  intros (Ho & Ha & Hrx & Hsub & Hrec & Hdead & Hlive) El Hin.
-  unfold InvC, a_droprx. cbn [fst a_open a_rx a_n a_last]. rewrite length_upd.
-  split; [auto|]. split; [auto|]. split; [|split; [|split; [|split]]]; auto.
+  intros (Hrx & Hsub & Hrec & Hdead & Hlive) El Hin.
+  unfold InvC, a_droprx. cbn [fst a_rx a_n a_last]. rewrite length_upd.
+  split; [|split; [|split; [|split]]]; auto.
   - pose proof (nlive_upd_none _ _ _ El). lia.
   - intros t H. destruct (Nat.eq_dec t s) as [->|N].
     + split; auto. eapply sub_ok_sublist. eapply Hlive; eauto.
@@ -331,49 +338,167 @@ Proof.
     + rewrite nth_error_upd_other in H by auto. now apply Hlive.
 Qed.
 
+(* ---------------------------------------------------------------- the invariant: handles *)
+Lemma InvH_neutral tr hs e : hneutral e -> InvH tr hs -> InvH (tr ++ [e]) hs.
+Proof.
+  intros N (Hc & Hd & Hl & Hv). unfold InvH.
+  rewrite hvals_snoc, hneutral_hstep by auto.
+  split; [|split; [|split]]; auto.
+  - intros h. rewrite created_snoc, hneutral_clone, orb_false_r by auto. apply Hc.
+  - intros h. rewrite hdropped_snoc, hneutral_droph, orb_false_r by auto. apply Hd.
+Qed.
+
+Lemma nth_error_upd_len A (l : list A) s x y : nth_error l s = Some y ->
+  length (upd l s x) = length l.
+Proof. intros _. apply length_upd. Qed.
+
+Lemma InvH_set tr hs h g v : InvH tr hs -> nth_error hs h = Some (Some g) ->
+  InvH (tr ++ [(Set_ h v, OSet v)]) (upd hs h (Some v)).
+Proof.
+  intros (Hc & Hd & Hl & Hv) Eh. unfold InvH.
+  rewrite hvals_snoc. cbn [hstep]. rewrite !length_upd.
+  split; [|split; [|split]]; auto.
+  - intros k. rewrite created_snoc. cbn [is_clone]. rewrite orb_false_r. apply Hc.
+  - intros k. rewrite hdropped_snoc. cbn [is_droph]. rewrite orb_false_r.
+    destruct (Nat.eq_dec k h) as [->|N].
+    + rewrite (nth_error_upd_same _ _ _ _ _ Eh). split; [|discriminate].
+      intros H. apply Hd in H. congruence.
+    + rewrite nth_error_upd_other by auto. apply Hd.
+  - intros k g' H. destruct (Nat.eq_dec k h) as [->|N].
+    + rewrite (nth_error_upd_same _ _ _ _ _ Eh) in H. injection H as <-.
+      eapply nth_error_upd_same. eapply Hv; eauto.
+    + rewrite nth_error_upd_other in H by auto. rewrite nth_error_upd_other by auto. now apply Hv.
+Qed.
+
+Lemma InvH_clone tr hs h g : InvH tr hs -> nth_error hs h = Some (Some g) ->
+  InvH (tr ++ [(CloneH h, OHandle (length hs))]) (hs ++ [Some g]).
+Proof.
+  intros (Hc & Hd & Hl & Hv) Eh. unfold InvH.
+  rewrite hvals_snoc. cbn [hstep]. rewrite !app_length, Hl. cbn [length].
+  assert (Eg : nth h (hvals tr) 0%N = g).
+  { apply nth_error_nth. eapply Hv; eauto. }
+  rewrite Eg.
+  split; [|split; [|split]]; auto.
+  - intros k. rewrite created_snoc. cbn [is_clone]. split.
+    + intros H. apply orb_true_iff in H as [H|H].
+      * apply Hc in H. lia.
+      * apply Nat.eqb_eq in H. lia.
+    + intros L. apply orb_true_iff. destruct (Nat.eq_dec k (length hs)) as [->|N].
+      * right. apply Nat.eqb_refl.
+      * left. apply Hc. lia.
+  - intros k. rewrite hdropped_snoc. cbn [is_droph]. rewrite orb_false_r. split.
+    + intros H. apply Hd in H. rewrite nth_error_app1; auto. apply nth_error_Some. congruence.
+    + intros H. apply nth_error_snoc' in H as [H|[_ H]]; [now apply Hd|discriminate].
+  - intros k g' H. apply nth_error_snoc' in H as [H|[-> H]].
+    + rewrite nth_error_app1; [now apply Hv|]. rewrite Hl. apply nth_error_Some. congruence.
+    + injection H as <-. rewrite nth_error_app2 by lia. rewrite Hl, Nat.sub_diag. reflexivity.
+Qed.
+
+Lemma InvH_drop tr hs h g : InvH tr hs -> nth_error hs h = Some (Some g) ->
+  InvH (tr ++ [(DropH h, ODone)]) (upd hs h None).
+Proof.
+  intros (Hc & Hd & Hl & Hv) Eh. unfold InvH.
+  rewrite hvals_snoc. cbn [hstep]. rewrite !length_upd.
+  split; [|split; [|split]]; auto.
+  - intros k. rewrite created_snoc. cbn [is_clone]. rewrite orb_false_r. apply Hc.
+  - intros k. rewrite hdropped_snoc. cbn [is_droph].
+    destruct (Nat.eq_dec k h) as [->|N].
+    + rewrite (nth_error_upd_same _ _ _ _ _ Eh), Nat.eqb_refl, orb_true_r. tauto.
+    + rewrite nth_error_upd_other by auto. apply Nat.eqb_neq in N. rewrite Nat.eqb_sym, N, orb_false_r.
+      apply Hd.
+  - intros k g' H. destruct (Nat.eq_dec k h) as [->|N].
+    + rewrite (nth_error_upd_same _ _ _ _ _ Eh) in H. discriminate.
+    + rewrite nth_error_upd_other in H by auto. now apply Hv.
+Qed.
+
+(* handle h exists, in the words of the history <-> in the state *)
+Lemma InvH_live tr hs h : InvH tr hs ->
+  (handle_live h tr = true <-> exists g, nth_error hs h = Some (Some g)).
+Proof.
+  intros (Hc & Hd & _). rewrite handle_live_eq. split.
+  - intros H. apply andb_true_iff in H as [H1 H2]. apply Hc in H1.
+    destruct (nth_error hs h) as [[g|]|] eqn:E; eauto.
+    + exfalso. rewrite (proj2 (Hd h) E) in H2. discriminate.
+    + apply nth_error_None in E. lia.
+  - intros [g E]. apply andb_true_iff. split.
+    + apply Hc. apply nth_error_Some. congruence.
+    + destruct (hdropped h tr) eqn:D; auto. apply Hd in D. congruence.
+Qed.
+
+(* ---------------------------------------------------------------- every operation keeps it *)
 Lemma Inv_init : Inv [] (init abs_impl).
 Proof.
-  unfold Inv, InvC, init. cbn. repeat split; auto; try lia; try discriminate.
-  - destruct s; discriminate.
-  - destruct s; discriminate.
-  - destruct s; discriminate.
-  - destruct s; discriminate.
-  - destruct s; discriminate.
+  unfold Inv, init. cbn [handles ch subs notifier onc abs_impl ch_new on_new].
+  split; [|split; [|split]]; auto.
+  - unfold InvC. cbn. split; [auto|]. split; [|split; [|split]].
+    + intros s. split; [discriminate|lia].
+    + auto.
+    + intros s H. destruct s; discriminate.
+    + intros s k H. destruct s; discriminate.
+  - unfold InvH. cbn. split; [|split; [|split]]; auto.
+    + intros h. unfold created. cbn. rewrite orb_false_r. rewrite Nat.eqb_eq. lia.
+    + intros h. unfold hdropped. cbn. split; [discriminate|]. destruct h as [|[|h]]; discriminate.
+    + intros h g H. destruct h as [|[|h]]; cbn in *; try discriminate. congruence.
 Qed.
 
 Lemma Inv_step tr st o : Inv tr st ->
   Inv (tr ++ [(o, snd (step abs_impl st o))]) (fst (step abs_impl st o)).
 Proof.
-  intros [HC HN]. destruct st as [v al c l nf oc]; cbn [alive ch subs notifier onc] in *.
-  assert (Quiet : forall e, neutral e -> Inv (tr ++ [e]) (St v al c l nf oc)).
-  { intros e Ne. split; auto. now apply InvC_neutral. }
-  destruct o as [x| |s|s| |x| |]; cbn [step alive ch subs notifier onc value abs_impl
-      ch_set ch_sub ch_poll ch_droprx ch_close on_notify on_drop on_poll fst snd].
-  - (* Set_ *) destruct al; [|apply Quiet; exact I].
-    unfold a_set at 1 2. cbn [fst snd]. split; auto. cbn [alive ch subs]. now apply InvC_set.
-  - (* Subscribe *) destruct al; [|apply Quiet; exact I].
-    split; auto. cbn [alive ch subs]. now apply InvC_sub.
+  intros (HC & HH & HT & HN). destruct st as [hs c l nf oc]; cbn [handles ch subs notifier onc] in *.
+  assert (Quiet : forall e, neutral e -> hneutral e -> Inv (tr ++ [e]) (St hs c l nf oc)).
+  { intros e Ne He. split; [|split; [|split]]; auto.
+    - now apply InvC_neutral.
+    - now apply InvH_neutral. }
+  destruct o as [h x|h|h|s|s|h|h|x| |]; cbn [step handles ch subs notifier onc abs_impl
+      ch_set ch_sub ch_poll ch_droprx ch_clone ch_droptx on_notify on_drop on_poll fst snd].
+  - (* Set_ *) destruct (nth_error hs h) as [[g|]|] eqn:Eh; try (apply Quiet; exact I).
+    unfold a_set at 1 2. cbn [fst snd]. split; [|split; [|split]]; cbn [handles ch subs notifier onc]; auto.
+    + now apply InvC_set.
+    + eapply InvH_set; eauto.
+    + rewrite (nlive_upd_some _ _ _ _ Eh). unfold a_set. cbn [fst].
+      destruct (Nat.eqb (a_rx c) 0); auto.
+  - (* Get *) destruct (nth_error hs h) as [[g|]|]; apply Quiet; exact I.
+  - (* Subscribe *) destruct (nth_error hs h) as [[g|]|] eqn:Eh; try (apply Quiet; exact I).
+    cbn [fst snd]. split; [|split; [|split]]; cbn [handles ch subs notifier onc]; auto.
+    + now apply InvC_sub.
+    + apply InvH_neutral; auto. exact I.
   - (* Poll *) destruct (nth_error l s) as [[k|]|] eqn:El; try (apply Quiet; exact I).
     unfold a_poll. destruct (Z.ltb_spec k (a_n c)) as [L|L]; cbn [fst snd].
-    + split; auto. cbn [alive ch subs]. eapply InvC_item; eauto.
+    + split; [|split; [|split]]; cbn [handles ch subs notifier onc]; auto.
+      * eapply InvC_item; eauto.
+      * apply InvH_neutral; auto. exact I.
     + rewrite (upd_id _ _ _ _ El). destruct (a_open c); apply Quiet; exact I.
   - (* DropSub *) destruct (nth_error l s) as [[k|]|] eqn:El; try (apply Quiet; exact I).
-    cbn [fst snd a_droprx]. split; auto. cbn [alive ch subs].
-    apply (InvC_kill _ _ _ _ _ k); auto.
-    + apply InvC_neutral; auto. exact I.
-    + apply in_or_app. right. left. reflexivity.
-  - (* DropState *) destruct al; [|apply Quiet; exact I].
-    split; auto. cbn [alive ch subs].
-    eapply InvC_quiet; eauto; try reflexivity.
-    rewrite dropped_snoc. cbn. now rewrite orb_true_r.
+    cbn [fst snd a_droprx]. split; [|split; [|split]]; cbn [handles ch subs notifier onc]; auto.
+    + apply (InvC_kill _ _ _ _ k); auto.
+      * apply InvC_neutral; auto. exact I.
+      * apply in_or_app. right. left. reflexivity.
+    + apply InvH_neutral; auto. exact I.
+  - (* CloneH *) destruct (nth_error hs h) as [[g|]|] eqn:Eh; try (apply Quiet; exact I).
+    cbn [fst snd]. split; [|split; [|split]]; cbn [handles ch subs notifier onc]; auto.
+    + apply InvC_chan with (c := c); try reflexivity. apply InvC_neutral; auto. exact I.
+    + eapply InvH_clone; eauto.
+    + rewrite nlive_app. cbn. now rewrite HT.
+  - (* DropH *) destruct (nth_error hs h) as [[g|]|] eqn:Eh; try (apply Quiet; exact I).
+    cbn [fst snd]. split; [|split; [|split]]; cbn [handles ch subs notifier onc]; auto.
+    + apply InvC_chan with (c := c); try reflexivity. apply InvC_neutral; auto. exact I.
+    + eapply InvH_drop; eauto.
+    + pose proof (nlive_upd_none _ _ _ Eh). cbn. lia.
   - (* Notify *) destruct nf; [|apply Quiet; exact I].
-    rewrite (HN eq_refl). cbn [ao_notify fst snd]. split; [|discriminate].
-    apply InvC_neutral; auto. exact I.
+    rewrite (HN eq_refl). cbn [ao_notify fst snd]. split; [|split; [|split]]; cbn [handles ch subs notifier onc]; auto.
+    + apply InvC_neutral; auto. exact I.
+    + apply InvH_neutral; auto. exact I.
+    + discriminate.
   - (* DropNotifier *) destruct nf; [|apply Quiet; exact I].
-    split; [|discriminate]. apply InvC_neutral; auto. exact I.
-  - (* PollOnce *) destruct (ao_poll oc) as [o1 r1] eqn:Ep. cbn [fst snd]. split.
-    + cbn [alive ch subs]. apply InvC_neutral; auto. destruct r1; exact I.
-    + cbn [notifier onc]. intros E. rewrite (HN E) in Ep. cbn in Ep. congruence.
+    split; [|split; [|split]]; cbn [handles ch subs notifier onc]; auto.
+    + apply InvC_neutral; auto. exact I.
+    + apply InvH_neutral; auto. exact I.
+    + discriminate.
+  - (* PollOnce *) destruct (ao_poll oc) as [o1 r1] eqn:Ep. cbn [fst snd].
+    split; [|split; [|split]]; cbn [handles ch subs notifier onc]; auto.
+    + apply InvC_neutral; auto. destruct r1; exact I.
+    + apply InvH_neutral; auto. destruct r1; exact I.
+    + intros E. rewrite (HN E) in Ep. cbn in Ep. congruence.
 Qed.
 
 Theorem Inv_trace ops : Inv (trace abs_impl ops) (final abs_impl ops).
